@@ -264,4 +264,74 @@ def waiterWait : List (Nat × String) := [
   (0, "}")
 ]
 
+/-- `Chain.Then` — wrappers applied from the last to the first (`Kit.CronChain.thenChain`). -/
+def chainThen : List (Nat × String) := [
+  (0, "func (c Chain) Then(j Job) Job {"),
+  (1, "for i := range c.wrappers {"),
+  (2, "j = c.wrappers[len(c.wrappers)-i-1](j)"),
+  (1, "}"),
+  (1, "return j"),
+  (0, "}")
+]
+
+/-- `Recover` — deferred `recover()`; a panic is logged with `logger.Error(err, "panic", …)` and swallowed (`Kind.recover`: `finish i true` → `returned`, `panicLogs + 1`). -/
+def chainRecover : List (Nat × String) := [
+  (0, "func Recover(logger Logger) JobWrapper {"),
+  (1, "return func(j Job) Job {"),
+  (2, "return FuncJob(func() {"),
+  (3, "defer func() {"),
+  (4, "if r := recover(); r != nil {"),
+  (5, "const size = 64 << 10"),
+  (5, "buf := make([]byte, size)"),
+  (5, "buf = buf[:runtime.Stack(buf, false)]"),
+  (5, "err, ok := r.(error)"),
+  (5, "if !ok {"),
+  (6, "err = fmt.Errorf(\"%v\", r)"),
+  (5, "}"),
+  (5, "logger.Error(err, \"panic\", \"stack\", \"...\\n\"+string(buf))"),
+  (4, "}"),
+  (3, "}()"),
+  (3, "j.Run()"),
+  (2, "})"),
+  (1, "}"),
+  (0, "}")
+]
+
+/-- `DelayIfStillRunningWithClock` — `start := clk.Now()` (`called t`), `mu.Lock()` (`enter` enabled only while `free`), deferred unlock (`finish` frees also on panic), "delay" logged iff `clk.Since(start) > time.Minute` (`clock - t > 60`). -/
+def chainDelay : List (Nat × String) := [
+  (0, "func DelayIfStillRunningWithClock(logger Logger, clk clock.Clock) JobWrapper {"),
+  (1, "return func(j Job) Job {"),
+  (2, "var mu sync.Mutex"),
+  (2, "return FuncJob(func() {"),
+  (3, "start := clk.Now()"),
+  (3, "mu.Lock()"),
+  (3, "defer mu.Unlock()"),
+  (3, "if dur := clk.Since(start); dur > time.Minute {"),
+  (4, "logger.Info(\"delay\", \"duration\", dur)"),
+  (3, "}"),
+  (3, "j.Run()"),
+  (2, "})"),
+  (1, "}"),
+  (0, "}")
+]
+
+/-- `SkipIfStillRunning` — 1-slot channel with one token; `select` with default: token taken → run, then `ch <- v` (not deferred: lost on panic); no token → `logger.Info("skip")`. -/
+def chainSkip : List (Nat × String) := [
+  (0, "func SkipIfStillRunning(logger Logger) JobWrapper {"),
+  (1, "return func(j Job) Job {"),
+  (2, "ch := make(chan struct{}, 1)"),
+  (2, "ch <- struct{}{}"),
+  (2, "return FuncJob(func() {"),
+  (3, "select {"),
+  (3, "case v := <-ch:"),
+  (4, "j.Run()"),
+  (4, "ch <- v"),
+  (3, "default:"),
+  (4, "logger.Info(\"skip\")"),
+  (3, "}"),
+  (2, "})"),
+  (1, "}"),
+  (0, "}")
+]
+
 end Kit.CronSched.Shape
